@@ -39,6 +39,7 @@ func init() {
 		}
 	}
 	floors = append(floors, histRequiredFloors...)
+	floors = append(floors, "carry:"+pMgrDepURL, "clean-cross-origin:"+pMgrDepURL, "extension:clean-other-authority", "extension:carry-own-origin")
 	core.Register(&core.Check{
 		ID:    prop,
 		Level: "exploration",
@@ -49,6 +50,8 @@ func init() {
 			"LocateChart --repo and Pull.Run --repo through a loopback proxy); the full 180 x 360 (quick) / 180 x 720 (thorough) repository x chart product is run at getter level and all 180 repositories at index level; " +
 			"the other call paths run the repository spellings with at most 1 deviation from http://repo.test (12) x every authority spelling of the chart (180, path /charts/x.tgz; thorough: all 4 paths, 720) plus the 5 bare references, " +
 			"thorough adds the 44 two-deviation repositories; quick crosses redirects with the paths that hand URLs to the getter differently, thorough crosses everything on chart paths 1-2 and the bare references. " +
+			"Plus, on every call path, bare repository URLs (no path, no trailing slash) x the chart URLs that textually extend them into another authority (R+':8443/..', R+'@evil.test/..', R+'.evil.test/..'); " +
+			"plus Manager.Update with the dependency's repository URL spelled at distance <=1 (scheme, host, port, userinfo) from the repositories.yaml URL, over the full 180-spelling product. " +
 			"Plus histories on ONE HTTPGetter instance (options are sticky): all ordered pairs of Get calls over the 12 (thorough 56) repository spellings, each call either re-configuring the getter " +
 			"(WithURL, WithBasicAuth of its own credentials, WithPassCredentialsAll on/off) or inheriting, the file on the origin of either repository or a third one; thorough also all ordered triples over 6 origin relations. " +
 			"distinct = the case tuple; a case is non-trivial when Helm issued at least one request",
@@ -202,6 +205,59 @@ func enumerate(thorough bool, only string, f func(Case)) spaceInfo {
 		block(path, repos1, chRest, coreCombos(path), false)
 		block(path, repos2, ch1, coreCombos(path), false)
 	}
+	// textual extensions of a bare repository URL (no path, no trailing slash) into another authority, every call path
+	extRepos := repos1
+	if thorough {
+		extRepos = append(append([]string{}, repos1...), repos2...)
+	}
+	extDropped := 0
+	for _, path := range allPaths {
+		if path == pIndex {
+			continue
+		}
+		combos := coreCombos(path)
+		if path == pGetter {
+			combos = []kr{{"chart", "none"}, {"prov", "none"}}
+		}
+		for _, r := range extRepos {
+			bare := bareRepoURL(r)
+			chs, d := extensionCharts(bare)
+			if path == pLocate {
+				extDropped += d
+			}
+			block(path, []string{bare}, chs, combos, false)
+		}
+	}
+	info.Bounds["extension_repo_spellings_bare"] = fmt.Sprint(len(extRepos))
+	info.Bounds["extension_chart_shapes"] = "repo+':8443/..', repo+'@evil.test/..', repo+'.evil.test/..' (+2 same-origin controls)"
+	info.Bounds["extension_unparsable_dropped_per_path"] = fmt.Sprint(extDropped)
+
+	// Manager.Update where the dependency spells its repository differently from repositories.yaml: every repository
+	// spelling of the full product x every spelling at distance <= 1 from it (scheme, host, port or userinfo changed)
+	depPairs := 0
+	depKinds := []string{"chart"}
+	if thorough {
+		depKinds = []string{"chart", "prov"}
+	}
+	for _, sp := range allSpellings() {
+		r := sp.authority() + repoPath
+		for _, nb := range neighbours(sp) {
+			d := nb.authority() + repoPath
+			if !parses(r) || !parses(d) {
+				continue
+			}
+			depPairs++
+			for _, ch := range []string{"x.tgz", nb.authority() + "/charts/x.tgz"} {
+				for _, p := range bools {
+					for _, k := range depKinds {
+						emit(Case{Path: pMgrDepURL, Repo: r, DepRepo: d, Chart: ch, Pass: p, Kind: k, Redirect: "none"})
+					}
+				}
+			}
+		}
+	}
+	info.Bounds["manager_depurl_repo_x_dependency_spelling_pairs"] = fmt.Sprint(depPairs)
+
 	// histories of Get calls on one getter instance
 	np, nt := enumerateHistories(thorough, emit)
 	info.Bounds["history_repo_spellings_pairs"] = fmt.Sprint(len(histRepos(thorough)))
@@ -330,8 +386,18 @@ func floorsOf(c *core.Ctx, ev evaluated) {
 	if ev.Err == "" && len(ev.Verdicts) > 0 {
 		c.Floor("download-succeeded")
 	}
+	bare := !strings.HasSuffix(cs.Repo, repoPath) // extension block: repository URL without path
 	for _, v := range ev.Verdicts {
 		qo := originOfRec(v.Rec)
+		if bare && !cs.Pass && !v.Redirect {
+			if v.Class == "clean" && qo != ro && strings.HasPrefix(cs.Chart, cs.Repo) {
+				c.Floor("extension:clean-other-authority")
+				c.Count("obs_extension_clean_other_authority", 1)
+			}
+			if v.Class == "creds-same-origin" {
+				c.Floor("extension:carry-own-origin")
+			}
+		}
 		if v.Rec.Scheme == "https" {
 			c.Floor("tls-request")
 		}
